@@ -9,6 +9,8 @@ Feature sets let each property take the sub-grammar it quantifies over.
 
 from __future__ import annotations
 
+import copy
+
 from hypothesis import strategies as st
 
 # --------------------------------------------------------------------------- features
@@ -176,7 +178,18 @@ OTHER_DIRECTIVES = ["code-block", "image", "figure", "math", "container", "topic
                     "date", "sectnum", "header", "footer", "target-notes", "default-role", "unicode"]
 
 
+_BLOCKS_CACHE: dict = {}
+
+
 def blocks_st(features: set, wild: bool = False, depth: int = 3, max_blocks: int = 5, headings: bool = True):
+    """Cached: building (and validating) the recursive strategy afresh for every draw dominates the run time."""
+    key = (frozenset(features), wild, depth, max_blocks, headings)
+    if key not in _BLOCKS_CACHE:
+        _BLOCKS_CACHE[key] = _blocks_st(set(features), wild, depth, max_blocks, headings)
+    return _BLOCKS_CACHE[key]
+
+
+def _blocks_st(features: set, wild: bool = False, depth: int = 3, max_blocks: int = 5, headings: bool = True):
     inl = inline_st(features, wild)
     inl_nobreak = inline_st(features - {"hardbreak", "softbreak"}, wild, depth=1)
 
@@ -465,6 +478,11 @@ def render_block(b, line0: int):
                     "fieldlist", "hr", "div", "directive", "deflist", "table", "para", "heading", "blockbreak"):
                 probe = render_block(dict(first), 0)[0]
                 if probe.startswith(":") or probe.startswith("---"):
+                    pre.append("")
+            elif opt_lines and b["optstyle"] == "colon" and not b.get("blank") and first is not None:
+                # a ':k: v' option block ends at the first line that does not start with ':'
+                probe = render_block(copy.deepcopy(first), 0)[0]
+                if probe.lstrip().startswith(":"):
                     pre.append("")
             inner = render_blocks(b["ch"], line0 + len(pre))
             return pre + inner + [f]
